@@ -547,9 +547,191 @@ def gen_wrap_tables():
     return '\n'.join(out) + '\n'
 
 
+# ----------------------------------------------------------------------------- control skeletons (C06 C07 C19 C20 C05)
+EXC_MAP = {'KeyboardInterrupt': ['.kbInt'], 'SystemExit': ['.sysExit'], 'BaseException': ['.sysExit', '.kbInt', '.special', '.other'],
+           'Exception': ['.special', '.other']}
+RISKY_KERNPROF = ('execfile(', 'execfile_(', 'run_module(', 'rmod_(', 'autoprofile.run(', 'prof.runctx(', 'find_script(', 'find_module_script(')
+RISKY_WRAP = ('func(*args', 'exec(cmd', 'method(input_)', 'await ')
+
+
+SKEL_ROLES = [
+    ('dump', 'prof.dump_stats(options.outfile)'), ('execfile', 'execfile('), ('run_module', 'run_module('), ('autoprofile', 'autoprofile.run('),
+    ('runctx', 'prof.runctx('), ('setup_exec', 'execfile(setup_file'), ('make_line_profiler', 'prof = line_profiler.LineProfiler()'),
+    ('make_cprofile', 'prof = ContextualProfile()'), ('timer_start', 'rt = RepeatedTimer'), ('timer_stop', 'rt.stop()'),
+    ('install', 'install_profiler(prof)'), ('uninstall', 'install_profiler(None)'),
+    ('save_global', 'global_profiler_state = (global_profiler._profile, global_profiler.enabled)'),
+    ('restore_global', 'global_profiler._profile, global_profiler.enabled = global_profiler_state'),
+    ('set_argv', 'sys.argv = '), ('find_script', 'script_file = find_'), ('find_setup', 'setup_file = find_script('), ('restore_contents', 'lst[:] = old'), ('exit_restore_argv', 'exit: _restore_list(argv)'),
+    ('exit_restore_path', 'exit: _restore_list(path)'), ('rebind', 'sys.argv, sys.path = (argv, path)'), ('call_main', '_main(args)'),
+    ('en', 'self.enable_by_count()'), ('dis', 'self.disable_by_count()'), ('yield', 'yield'),
+    ('if_interval', 'if: options.output_interval'), ('if_builtin', 'if: options.builtin'), ('if_global', 'if: global_profiler'),
+    ('builtins_set', "builtins.__dict__['profile'] = profile"), ('builtins_restore', "builtins.__dict__['profile'] = old_profile"),
+    ('builtins_del', "del builtins.__dict__['profile']"), ('lprun_run', 'profile.runctx(arg_str'), ('lprun_page', 'page(output)'),
+    ('lprun_print_stats', 'profile.print_stats('), ('lprun_dump', 'profile.dump_stats(dump_file)'), ('lprun_write', 'pfile.write(output)'),
+    ('lprun_return', 'return_value = profile'),
+]
+
+
+class SkelEmitter:
+    NAMES = []        # name table shared by all skeletons of one generated file: leaves and conditions are emitted as indices
+
+    def __init__(self, risky):
+        self.risky = risky
+
+    @classmethod
+    def intern(cls, name):
+        if name not in cls.NAMES:
+            cls.NAMES.append(name)
+        return '%d' % cls.NAMES.index(name)
+
+    def leaf(self, node, text=None):
+        txt = text or ast.unparse(node)
+        txt = ' '.join(txt.split())
+        if 'yield' in txt.split('(')[0].split() or (isinstance(node, ast.AST) and any(isinstance(n, (ast.Yield, ast.YieldFrom)) for n in ast.walk(node))):
+            return '.eff %s true' % self.intern('yield: ' + txt[:80])
+        risky = any(r in txt for r in self.risky)
+        return '.eff %s %s' % (self.intern(txt[:90]), 'true' if risky else 'false')
+
+    def seq(self, stmts):
+        items = [x for x in (self.stmt(s) for s in stmts) if x is not None]
+        if not items:
+            return '.skip'
+        out = items[-1]
+        for it in reversed(items[:-1]):
+            out = '.seq (%s) (%s)' % (it, out)
+        return out
+
+    def exc_names(self, t):
+        if t is None:
+            return EXC_MAP['BaseException']
+        names = [ast.unparse(n) for n in (t.elts if isinstance(t, ast.Tuple) else [t])]
+        out = []
+        for n in names:
+            out += EXC_MAP.get(n, ['.special'])     # a specifically named ordinary exception (StopIteration, AttributeError, ...)
+        return sorted(set(out), key=out.index)
+
+    def stmt(self, s):
+        if isinstance(s, ast.Expr) and isinstance(s.value, ast.Constant):
+            return None
+        if isinstance(s, ast.If):
+            return '.ite %s (%s) (%s)' % (self.intern('if: ' + ' '.join(ast.unparse(s.test).split())[:80]), self.seq(s.body), self.seq(s.orelse))
+        if isinstance(s, ast.Try):
+            body = self.seq(s.body + s.orelse) if s.orelse and not s.handlers else self.seq(s.body)
+            if s.handlers:
+                # handlers are tried in order: nested tryExcept around the same body (each handler takes the classes not taken
+                # before); the `else:` block runs after a body that did not raise, outside the reach of the handlers
+                seen = []
+                for i, h in enumerate(s.handlers):
+                    names = [n for n in self.exc_names(h.type) if n not in seen]
+                    seen += names
+                    orelse = self.seq(s.orelse) if (s.orelse and i == 0) else '.skip'
+                    body = '.tryExcept (%s) [%s] (%s) (%s)' % (body, ', '.join(names), self.seq(h.body), orelse)
+            if s.finalbody:
+                body = '.tryFinally (%s) (%s)' % (body, self.seq(s.finalbody))
+            return body
+        if isinstance(s, (ast.With, ast.AsyncWith)):
+            body = self.seq(s.body)
+            for item in reversed(s.items):
+                cm = ' '.join(ast.unparse(item.context_expr).split())[:70]
+                body = '.seq (.eff %s false) (.tryFinally (%s) (.eff %s false))' % (self.intern('enter: ' + cm), body, self.intern('exit: ' + cm))
+            return body
+        if isinstance(s, ast.Pass):
+            return None
+        if isinstance(s, ast.Return):
+            if s.value is not None and any(r in ast.unparse(s.value) for r in self.risky):
+                return '.seq (%s) (.ret)' % self.leaf(s.value)
+            return '.ret'
+        if isinstance(s, ast.Raise):
+            return '.raise_ .other'
+        if isinstance(s, ast.While) and ast.unparse(s.test) == 'True':
+            return '.eff %s false' % self.intern('loop')
+        if isinstance(s, (ast.Assign, ast.Expr, ast.AugAssign, ast.Import, ast.ImportFrom, ast.Delete, ast.Assert, ast.AnnAssign,
+                          ast.FunctionDef, ast.AsyncFunctionDef)):
+            if isinstance(s, (ast.FunctionDef, ast.AsyncFunctionDef)):
+                return '.eff %s false' % self.intern('def ' + s.name)
+            return self.leaf(s)
+        raise Unsupported(type(s).__name__ + ': ' + ast.unparse(s)[:60])
+
+
+def skel_def(name, doc, emitter, stmts):
+    try:
+        body = emitter.seq(stmts)
+    except Unsupported as e:
+        return '-- %s\n-- unsupported construct: %s\ndef %s : Skel Nat := by exact unsupported_construct_in_source\n' % (doc, str(e).replace('\n', ' ')[:200], name)
+    return '/-- %s -/\ndef %s : Skel Nat :=\n  %s\n' % (doc, name, body)
+
+
+def inner_def(fn, name):
+    return next((n for n in ast.walk(fn) if isinstance(n, (ast.FunctionDef, ast.AsyncFunctionDef)) and n.name == name and n is not fn), None)
+
+
+def gen_skeletons():
+    out = ['import LPVerif.Model.Skel', '/-! Control skeletons dumped from the tree by tools/extract.py — regenerated on every run. -/',
+           'namespace LPVerif.Generated', 'open LPVerif.Skel', '']
+    SkelEmitter.NAMES = []
+    kp = ast.parse(src_of('kernprof.py'))
+    ek = SkelEmitter(RISKY_KERNPROF)
+    # the function that holds the body of kernprof's entry point (`main`, or `_main` behind a thin wrapper)
+    body_fn = find_func(kp, '_main') or find_func(kp, 'main')
+    main_fn = find_func(kp, 'main')
+    try:
+        start = next(i for i, s in enumerate(body_fn.body) if ast.unparse(s).startswith('sys.argv'))
+        out.append(skel_def('kernprofBody', 'kernprof.py `%s`, from the statement that sets sys.argv to the end' % body_fn.name, ek, body_fn.body[start:]))
+        istart = next(i for i, s in enumerate(body_fn.body) if 'global_profiler' in ast.unparse(s))
+        out.append(skel_def('kernprofHead', 'kernprof.py `%s`, from the statement that sets sys.argv up to the installation of the profiler' % body_fn.name, ek, body_fn.body[start:istart]))
+        out.append(skel_def('kernprofFromInstall', 'kernprof.py `%s`, from the installation of the profiler into the global @profile to the end' % body_fn.name, ek, body_fn.body[istart:]))
+        tstart = next(i for i, s in enumerate(body_fn.body) if 'RepeatedTimer' in ast.unparse(s))
+        out.append(skel_def('kernprofTail', 'kernprof.py `%s`, from the first RepeatedTimer statement to the end' % body_fn.name, ek, body_fn.body[tstart:]))
+    except StopIteration:
+        out.append('def kernprofBody : Skel Nat := by exact anchor_statement_not_found\ndef kernprofTail : Skel Nat := by exact anchor_statement_not_found\n'
+                   'def kernprofHead : Skel Nat := by exact anchor_statement_not_found\ndef kernprofFromInstall : Skel Nat := by exact anchor_statement_not_found\n')
+    # the wrapper that restores sys.argv / sys.path: decorators of main (pinned tree) or its body (after the fix)
+    decos = [ast.unparse(d) for d in main_fn.decorator_list]
+    out.append('/-- decorators of kernprof.main -/\ndef kernprofMainDecorators : List String := [%s]\n' % ', '.join(lean_str(d) for d in decos))
+    em = SkelEmitter(('_main(',))
+    out.append(skel_def('kernprofMain', 'kernprof.py `main` (meaningful when it is a thin wrapper around `_main`)', em,
+                        main_fn.body if body_fn is not main_fn else []))
+    er = SkelEmitter(())
+    out.append(skel_def('restoreList', 'kernprof.py `_restore_list` (the `yield` is where the decorated function runs)', er, find_func(kp, '_restore_list').body))
+    # %lprun
+    ip = ast.parse(src_of('line_profiler/ipython_extension.py'))
+    lprun = find_func(ip, 'lprun')
+    ei = SkelEmitter(('profile.runctx(',))
+    try:
+        start = next(i for i, s in enumerate(lprun.body) if isinstance(s, ast.If) and 'builtins' in ast.unparse(s.test))
+        out.append(skel_def('lprunCore', 'ipython_extension.py `lprun`, from the builtins handling to the end', ei, lprun.body[start:]))
+    except StopIteration:
+        out.append('def lprunCore : Skel Nat := by exact anchor_statement_not_found\n')
+    # by-count brackets of the mixin
+    mx = ast.parse(src_of(MIXIN))
+    ew = SkelEmitter(RISKY_WRAP)
+    for meth in ('runctx', 'runcall', '__enter__', '__exit__'):
+        fn = find_func(mx, meth, 'ByCountProfilerMixin')
+        out.append(skel_def('mixin_' + meth.strip('_'), 'profiler_mixin.py `%s`' % meth, ew, fn.body))
+    for meth in ('wrap_function', 'wrap_coroutine'):
+        fn = find_func(mx, meth, 'ByCountProfilerMixin')
+        w = inner_def(fn, 'wrapper')
+        out.append(skel_def(meth + '_wrapper', 'profiler_mixin.py `%s`: the wrapper function' % meth, ew, w.body))
+    for meth in ('wrap_generator', 'wrap_async_generator'):
+        fn = find_func(mx, meth, 'ByCountProfilerMixin')
+        w = inner_def(fn, 'wrapper')
+        loop = next((s for s in w.body if isinstance(s, ast.While)), None)
+        out.append(skel_def(meth + '_iteration', 'profiler_mixin.py `%s`: one iteration of the wrapper loop' % meth, ew, loop.body if loop else []))
+    out.append('/-! Roles: indices of the statements whose source text starts with the given prefix (computed by the translator, so that the\n'
+               '    kernel compares numbers; an empty role means the statement is gone and makes the non-vacuity theorems fail). -/')
+    for role, pfx in SKEL_ROLES:
+        idl = [i for i, n in enumerate(SkelEmitter.NAMES) if n.startswith(pfx)]
+        out.append('/-- statements starting with `%s` -/\ndef role_%s : List Nat := [%s]' % (pfx.replace('`', "'"), role, ', '.join(map(str, idl))))
+    out.append('')
+    out.append('/-- the name table: leaf `i` of the skeletons above is the statement `skelNames[i]` (conditions are prefixed `if: `) -/')
+    out.append('def skelNames : List String := [\n  %s]\n' % ',\n  '.join(lean_str(n) for n in SkelEmitter.NAMES))
+    out.append('end LPVerif.Generated')
+    return '\n'.join(out) + '\n'
+
+
 GENERATORS = [('PreParse.lean', gen_pre_parse), ('RelImport.lean', gen_get_module),
               ('KernprofOptions.lean', gen_kernprof_options), ('ExplicitTables.lean', gen_explicit_tables),
-              ('Explicit.lean', gen_explicit_methods), ('WrapTables.lean', gen_wrap_tables)]
+              ('Explicit.lean', gen_explicit_methods), ('WrapTables.lean', gen_wrap_tables), ('Skeletons.lean', gen_skeletons)]
 
 
 def regenerate(log=None):
